@@ -1,2 +1,152 @@
-(** C05 - theorem file under construction *)
-From Vivid Require Import Actor.Core.
+(** C05 - lifecycle order per incarnation: OnLaunch first, own OnKilled last; a supervised restart starts a
+    new incarnation with an OnLaunch handled by the restarted actor itself; a prelaunch failure creates nothing.
+
+    Model: Actor/Core.v (ActorCore: Context.HandleEnvelop and its handlers, ActorOf, kill / killed chain,
+    restart, zombie), tied to the real runtime by lock-step replay (bin/check C05).  User code is data
+    (action scripts, decisions, hook outcomes), so "for all s t held sp ..." / "reachable s" quantify over all
+    user code, all supervision decisions, all hook outcomes and all schedules.
+    Derived notions: Actor/SpecLife.v.  Statements only; proofs in Actor/ProofsLife*.v. *)
+From Coq Require Import List NArith ZArith Bool.
+From Vivid Require Import Base.Tm Actor.Core Actor.CoreRun Actor.SpecLife Actor.ProofsLife Actor.ProofsLifeInv Actor.ProofsLifeEx.
+Import ListNotations.
+Local Open Scope N_scope.
+
+(** ============================ (a) ActorOf ============================ *)
+
+(** prelaunch failure: ActorOf returns an error (result code 2 in the caller's log); no context is created,
+    nothing is registered, nothing is sent (the instruction list is empty): the actor never receives anything *)
+Theorem C05_prelaunch_fail s t held sp x :
+  get s (self_of t) = Some x -> a_state x <> Killed -> sp_prelaunch sp = false ->
+  exec1 s t held (IAct (ASpawn sp)) = (add_obs s (OSpawn (self_of t) (sp_name sp) 2), []).
+Proof. exact (exec1_spawn_prelaunch_fail s t held sp x). Qed.
+
+(** ([add_obs] only appends to the caller-visible log) *)
+Theorem C05_prelaunch_fail_creates_nothing s o :
+  actors (add_obs s o) = actors s /\ reg (add_obs s o) = reg s /\ gens (add_obs s o) = gens s /\
+  subs (add_obs s o) = subs s /\ exts (add_obs s o) = exts s.
+Proof. exact (conj eq_refl (conj eq_refl (conj eq_refl (conj eq_refl eq_refl)))). Qed.
+
+(** a successful ActorOf: exactly one new context (Running, behaviour stack [0], empty mailbox), registered under
+    parent path ++ [name] with the next generation of that path, entered in the parent's children map; the
+    caller's next instructions are: tell the child OnLaunch (system message), finish that Enqueue, publish
+    ActorSpawnedEvent, (kill the child if the parent is already stopping,) return the reference *)
+Theorem C05_spawn_ok_shape s t held sp x s' front :
+  get s (self_of t) = Some x -> a_state x <> Killed -> sp_prelaunch sp = true ->
+  alookup (reg s) (a_path x ++ [sp_name sp]) = None ->
+  exec1 s t held (IAct (ASpawn sp)) = (s', front) ->
+  let self := self_of t in
+  let p := a_path x ++ [sp_name sp] in
+  let c := length (actors s) in
+  let g := match alookup (gens s) p with Some g => g | None => 0 end in
+  length (actors s') = S c /\
+  get s' c = Some (new_actor p g (Some self) sp) /\
+  (forall b, b <> self -> b <> c -> get s' b = get s b) /\
+  get s' self = Some (set_children x (aset (a_children x) p c)) /\
+  reg s' = reg s ++ [(p, c)] /\ alookup (reg s') p = Some c /\
+  gens s' = aset (gens s) p (g + 1) /\
+  olog s' = olog s /\ subs s' = subs s /\ err s' = err s /\
+  front = [IEnq true (RObj c) (RObj self) MLaunch; IEnqDone; IPub evSpawned (p ++ [g])]
+          ++ (if match a_state x with Killing => true | _ => false end
+              then [IEnq true (RObj c) (RObj self) (MKill (RObj self) false); IEnqDone] else [])
+          ++ [IObs (OSpawn self (sp_name sp) 0)].
+Proof. exact (exec1_spawn_ok s t held sp x s' front). Qed.
+
+(** ============================ (c) restart ============================ *)
+
+(** the restart completes (OnRestarted and OnPrelaunch succeed): the actor is Running again under the same
+    context (same path, generation, parent, children, watchers, stash, mailbox), the behaviour stack is reset to
+    [0] (the actor's OnReceive), the instance counter is incremented iff a provider is configured, the current
+    envelope is an OnLaunch from the parent and the handler mode is 0; the remaining instructions are:
+    mailbox.Resume, two publications, the behaviour call for OnLaunch BY THIS ACTOR, one publication.
+    No instruction of the list sends an OnLaunch envelope to anybody ([IPub] only sends [MEvent], see
+    [C05_publish_sends_events_only]) *)
+Theorem C05_restart_starts_with_launch s t held x :
+  get s (self_of t) = Some x -> hooks_ok x = true ->
+  exists x',
+    exec1 s t held IRestartFinish =
+      (set_actor s (self_of t) x',
+       [IResume1; IPub evRestarted (actor_key x); IPub evResumed (actor_key x);
+        IBeh MLaunch (sp_launch (a_spec x)) RecFail; IPub evLaunched (actor_key x)]) /\
+    a_state x' = Running /\ a_restarting x' = None /\ a_zombie x' = a_zombie x /\
+    a_modes x' = [0] /\ a_inst x' = (if sp_provider (a_spec x) then a_inst x + 1 else a_inst x) /\
+    a_hooks x' = tl (a_hooks x) /\ a_cons x' = CBusy 0 /\ a_cur x' = Some (launch_env x) /\
+    a_path x' = a_path x /\ a_gen x' = a_gen x /\ a_parent x' = a_parent x /\ a_spec x' = a_spec x /\
+    a_children x' = a_children x /\ a_watchers x' = a_watchers x /\ a_stash x' = a_stash x /\
+    a_decisions x' = a_decisions x /\ a_sq x' = a_sq x /\ a_uq x' = a_uq x /\ a_paused x' = a_paused x /\ a_pend x' = a_pend x.
+Proof. exact (exec1_restart_finish_ok s t held x). Qed.
+
+(** the behaviour call of a non-zombie, non-root actor is observed as [OSeen self instance mode message], the mode
+    being the one HandleEnvelop peeked ([CBusy mode]): after [C05_restart_starts_with_launch] that is
+    [OSeen a (new instance) 0 MLaunch] *)
+Theorem C05_behaviour_call_logged s t held x m acts r pa :
+  get s (self_of t) = Some x -> a_zombie x = false -> a_parent x = Some pa ->
+  fst (exec1 s t held (IBeh m acts r)) =
+    add_obs s (OSeen (self_of t) (a_inst x) (match a_cons x with CBusy md => md | _ => mode_top x end) m).
+Proof. exact (exec1_IBeh_logs s t held x m acts r pa). Qed.
+
+Theorem C05_publish_sends_events_only s t held x ty pl :
+  get s (self_of t) = Some x ->
+  exec1 s t held (IPub ty pl) =
+    (s, match subscribers s ty with
+        | [] => []
+        | l => [IEnqAny false (map (fun p => RObj (snd p)) l) root_ref (MEvent ty pl)]
+        end).
+Proof. exact (exec1_IPub s t held x ty pl). Qed.
+
+(** OnRestarted or OnPrelaunch fails: the actor becomes a zombie (state unchanged = Killed, see C06), nothing
+    but mailbox.Resume follows: no OnLaunch, no notification *)
+Theorem C05_restart_failed_is_zombie s t held x :
+  get s (self_of t) = Some x -> hooks_ok x = false ->
+  exists x',
+    exec1 s t held IRestartFinish = (set_actor s (self_of t) x', [IResume1]) /\
+    a_zombie x' = true /\ a_state x' = a_state x /\ a_restarting x' = a_restarting x /\
+    a_modes x' = [0] /\ a_hooks x' = tl (a_hooks x) /\ a_cons x' = a_cons x /\ a_children x' = a_children x /\
+    a_path x' = a_path x /\ a_pend x' = a_pend x.
+Proof. exact (exec1_restart_finish_fail s t held x). Qed.
+
+(** a zombie's behaviour is never called *)
+Theorem C05_zombie_sees_nothing s t held x m acts r :
+  get s (self_of t) = Some x -> a_zombie x = true -> exec1 s t held (IBeh m acts r) = (s, []).
+Proof. exact (exec1_IBeh_zombie s t held x m acts r). Qed.
+
+(** ============================ (d) OnKill before the own OnKilled ============================ *)
+
+(** doKill: (the kill is passed to the children,) the behaviour sees the current message (the OnKill), THEN
+    onKilled(self) runs ... *)
+Theorem C05_kill_before_killed s t held x poison :
+  get s (self_of t) = Some x ->
+  exec1 s t held (IDoKill poison) =
+    (s, (match a_children x with
+         | [] => []
+         | l => [IEnqAny (negb poison) (map (fun p => RObj (snd p)) l) (RObj (self_of t)) (MKill (RObj (self_of t)) poison)]
+         end)
+        ++ [IBeh (match a_cur x with Some e => e_msg e | None => MKill RNone poison end) (sp_kill (a_spec x)) RecLog;
+            IOnKilled (RObj (self_of t))]).
+Proof. exact (exec1_IDoKill s t held x poison). Qed.
+
+(** ... which only checks whether the actor can be marked Killed ... *)
+Theorem C05_onkilled_self_checks s t held x :
+  get s (self_of t) = Some x -> a_zombie x = false ->
+  exec1 s t held (IOnKilled (RObj (self_of t))) = (s, [ICheckMark]).
+Proof. exact (exec1_IOnKilled_self s t held x). Qed.
+
+(** ... and the behaviour call for the own OnKilled is issued by that check only, when the last child is gone
+    and the state is Killing; it is followed by the cleanup or by the end of the restart *)
+Theorem C05_own_killed_from_mark s t held x :
+  get s (self_of t) = Some x -> a_children x = [] -> a_state x = Killing ->
+  exists x',
+    exec1 s t held ICheckMark =
+      (set_actor s (self_of t) x',
+       [IBeh (MKilled (RObj (self_of t))) (sp_killed (a_spec x)) RecLog]
+       ++ match a_restarting x with None => [ICleanup] | Some _ => [IRestartFinish] end) /\
+    a_state x' = Killed /\ a_children x' = [] /\ a_zombie x' = a_zombie x /\ a_restarting x' = a_restarting x /\
+    a_cur x' = Some {| e_sys := true; e_sender := match a_cur x with Some e0 => e_sender e0 | None => RNone end;
+                       e_msg := MKilled (RObj (self_of t)) |} /\
+    a_pend x' = a_pend x /\ a_cons x' = a_cons x /\ a_path x' = a_path x /\ a_parent x' = a_parent x.
+Proof. exact (exec1_ICheckMark_marks s t held x). Qed.
+
+(** the OnKilled of another actor is shown to the behaviour with that actor's reference, which is NOT equal to
+    the own one: [OSeen a _ _ (MKilled (RObj a))] always is the own OnKilled *)
+Theorem C05_other_killed_is_not_own s a x who :
+  get s a = Some x -> ref_eq s who (RObj a) = false -> who <> RObj a.
+Proof. exact (other_killed_not_own s a x who). Qed.
